@@ -154,6 +154,7 @@ def run_tlc_export(name, module, cfgpath, outdir, tier, asan_stride, tlc_workers
     nscripts = 0
     nsent = 0
     samples = []
+    capped = False
     try:
         for line in tlc.stdout:
             if line.startswith(b'<<"BEH"'):
@@ -178,6 +179,9 @@ def run_tlc_export(name, module, cfgpath, outdir, tier, asan_stride, tlc_workers
                 log.append(line)
             if time.time() - t0 > timeout:
                 tlc.kill()
+                if simulate:   # a random sample is a sample of whatever size the time allowed (on a loaded machine: fewer walks)
+                    capped = True
+                    break
                 raise Infra("TLC timed out after %ds in %s" % (timeout, name))
     finally:
         tlc.wait()
@@ -196,7 +200,7 @@ def run_tlc_export(name, module, cfgpath, outdir, tier, asan_stride, tlc_workers
         raise Infra("TLC printed a malformed behaviour line in %s" % name)
     if st["states"] == 0 and not simulate:
         raise Infra("TLC did not report state counts for %s:\n%s" % (name, text[-2000:]))
-    if st.get("error") and "invariant_violated" not in st and not (max_scripts and nscripts >= max_scripts):
+    if st.get("error") and "invariant_violated" not in st and not (max_scripts and nscripts >= max_scripts) and not capped:
         raise Infra("TLC error in %s: %s\n%s" % (name, st["error"], text[-1500:]))
     total, ok, bad = pool.results()
     atotal, aok, abad = apool.results()
